@@ -14,6 +14,7 @@ import (
 	"net/http/httptest"
 	"os"
 	"strconv"
+	"strings"
 	"sync"
 	"time"
 
@@ -56,17 +57,34 @@ type BgObs struct {
 }
 
 type Case struct {
-	I      int     `json:"i"`
-	Stream string  `json:"stream"`
-	Steps  []Step  `json:"steps"`
-	Events []Ev    `json:"events"`
-	Notes  []Note  `json:"notes"`
-	Bg     []BgObs `json:"bg"`
-	Looks  [][]int `json:"looks"` // after step k: resolved connection per name
-	Before [][]int `json:"before"`
-	Hang   string  `json:"hang,omitempty"`
-	Crash  string  `json:"crash,omitempty"`
+	I      int      `json:"i"`
+	Stream string   `json:"stream"`
+	Steps  []Step   `json:"steps"`
+	Events []Ev     `json:"events"`
+	Notes  []Note   `json:"notes"`
+	Bg     []BgObs  `json:"bg"`
+	Looks  [][]int  `json:"looks"` // after step k: resolved connection per name
+	Before [][]int  `json:"before"`
+	Hang   string   `json:"hang,omitempty"`
+	Crash  string   `json:"crash,omitempty"`
 	Leak   []string `json:"leak,omitempty"`
+	// race stream: rounds of "#1 ends on its own while #2 connects"
+	Rounds  int       `json:"rounds,omitempty"`
+	Seed    uint64    `json:"seed,omitempty"`
+	Race    []RaceObs `json:"race,omitempty"`
+	Skipped bool      `json:"skipped,omitempty"` // not run: the stream was stopped after repeated hangs
+}
+
+// RaceObs is what one round of the race stream observed after quiescence.
+type RaceObs struct {
+	Round    int    `json:"round"`
+	How      string `json:"how"`       // how #1 ended: sever | close
+	OffsetUS int    `json:"offset_us"` // delay of #2's dial after #1 stopped serving
+	After    string `json:"after"`     // what the name resolves to: new | old | none | other
+	NewAlive bool   `json:"new_alive"` // #2 answered a Hello
+	Final    string `json:"final"`     // after #2 ended too: none | ...
+	Notes    []Note `json:"notes"`
+	Hang     string `json:"hang,omitempty"`
 }
 
 // ---- generation -------------------------------------------------------------
@@ -173,28 +191,28 @@ func genHistory(seed uint64, i int, free bool) Case {
 // ---- execution ----------------------------------------------------------------
 
 type sconn struct {
-	idx      int
-	name     int
-	client   *sniproxy.VerifClient
-	ep       *sniproxy.Endpoint
-	holdCB   chan struct{} // non-nil: the thread waits here before OnConnect
-	holdSv   chan struct{}
-	atCB     chan struct{} // closed when the callback is reached
-	atServed chan struct{} // closed when "served" is reached
-	ended    chan struct{} // closed when ServeBack returned
+	idx       int
+	name      int
+	client    *sniproxy.VerifClient
+	ep        *sniproxy.Endpoint
+	holdCB    chan struct{} // non-nil: the thread waits here before OnConnect
+	holdSv    chan struct{}
+	atCB      chan struct{} // closed when the callback is reached
+	atServed  chan struct{} // closed when "served" is reached
+	ended     chan struct{} // closed when ServeBack returned
 	connected chan struct{}
-	sess     int64
+	sess      int64
 }
 
 type world struct {
-	mu      sync.Mutex
-	c       *Case
-	srv     *sniproxy.Server
-	conns   []*sconn
-	arrive  []*sconn // by handler arrival
-	pendCB  *sconn   // the connection being set up (one at a time)
-	step    int
-	free    bool
+	mu     sync.Mutex
+	c      *Case
+	srv    *sniproxy.Server
+	conns  []*sconn
+	arrive []*sconn // by handler arrival
+	pendCB *sconn   // the connection being set up (one at a time)
+	step   int
+	free   bool
 }
 
 func (w *world) event(e Ev) {
@@ -642,9 +660,185 @@ func runFree(c *Case, seed uint64) {
 	c.Looks = [][]int{final}
 }
 
+// runRace: many rounds of two connections under one name where #1 ends on
+// its own (not kicked) at the very moment #2 connects.  Nothing is held; the
+// logger is slow (every line takes a few ms), which widens every window of
+// the server code that contains a log statement.  After both threads have
+// settled the property is read off: the name resolves to #2, #2 is alive,
+// and once #2 has ended too the name resolves to nothing; every connection
+// got its connect/disconnect pair.
+func runRace(c *Case, tap *rpcx.LogTap) {
+	r := hx.NewRng(c.Seed*2654435761 + uint64(c.I) + 99)
+	type conn struct {
+		client *sniproxy.VerifClient
+		served chan struct{}
+		ended  chan struct{}
+	}
+	var mu sync.Mutex
+	var conns []*conn
+	var notes []Note
+	var sess int64
+	arrived := make(chan *conn, 8)
+	srv := sniproxy.NewServer(&sniproxy.ServerConfig{
+		OnConnect: func(user string) int64 {
+			mu.Lock()
+			defer mu.Unlock()
+			sess++
+			notes = append(notes, Note{K: "connect", N: nameIndex(user), S: sess})
+			return sess
+		},
+		OnDisconnect: func(user string, s int64) {
+			mu.Lock()
+			defer mu.Unlock()
+			notes = append(notes, Note{K: "disconnect", N: nameIndex(user), S: s})
+		},
+	})
+	srv.VerifSetEndpointCallback(func(name string, cl *sniproxy.VerifClient) {
+		cn := &conn{client: cl, served: make(chan struct{}), ended: make(chan struct{})}
+		mu.Lock()
+		conns = append(conns, cn)
+		mu.Unlock()
+		arrived <- cn
+	})
+	sniproxy.VerifHook = func(point, name string, cl *sniproxy.VerifClient) {
+		if point != "served" {
+			return
+		}
+		mu.Lock()
+		defer mu.Unlock()
+		for _, cn := range conns {
+			if cn.client.Same(cl) {
+				select {
+				case <-cn.served:
+				default:
+					close(cn.served)
+				}
+			}
+		}
+	}
+	defer func() { sniproxy.VerifHook = nil }()
+	ts := httptest.NewServer(aries.Func(func(ac *aries.C) error {
+		ac.User = ac.Path
+		mu.Lock()
+		n0 := len(conns)
+		mu.Unlock()
+		err := srv.ServeBack(ac)
+		// the connection this handler served is the one that arrived first
+		// after n0 (one dial is in flight at a time)
+		mu.Lock()
+		if n0 < len(conns) {
+			select {
+			case <-conns[n0].ended:
+			default:
+				close(conns[n0].ended)
+			}
+		}
+		mu.Unlock()
+		return err
+	}))
+	defer ts.Close()
+	addr := ts.Listener.Addr().String()
+	dial := func() (*sniproxy.Endpoint, error) {
+		return sniproxy.Dial(context.Background(), &sniproxy.StaticRouter{Host: addr},
+			&sniproxy.DialOption{Path: names[0], WithoutTLS: true})
+	}
+	which := func(a, b *conn) string {
+		cl := srv.VerifLookup(names[0])
+		switch {
+		case cl == nil:
+			return "none"
+		case b != nil && cl.Same(b.client):
+			return "new"
+		case a != nil && cl.Same(a.client):
+			return "old"
+		}
+		return "other"
+	}
+	tap.SetDelay(2 * time.Millisecond)
+	defer tap.SetDelay(0)
+	offsets := []int{0, 200, 500, 1000, 1500, 2500, 4000}
+	hangs := 0
+	for round := 0; round < c.Rounds && hangs < 3; round++ {
+		o := RaceObs{Round: round, How: []string{"sever", "close"}[r.Intn(2)],
+			OffsetUS: offsets[(round+r.Intn(2))%len(offsets)]}
+		mu.Lock()
+		notes = nil
+		mu.Unlock()
+		fail := func(why string) {
+			o.Hang = why
+			hangs++
+		}
+		ep1, err := dial()
+		if err != nil {
+			fail("dial #1: " + err.Error())
+			c.Race = append(c.Race, o)
+			continue
+		}
+		var c1, c2 *conn
+		select {
+		case c1 = <-arrived:
+		case <-time.After(waitBound):
+			fail("connection #1 did not reach the server")
+		}
+		var ep2 *sniproxy.Endpoint
+		if c1 != nil {
+			// #1 ends on its own ...
+			if o.How == "sever" {
+				ep1.VerifSever()
+			} else {
+				go ep1.Close()
+			}
+			// ... and #2 connects just as #1's server thread runs its defers
+			select {
+			case <-c1.served:
+			case <-time.After(waitBound):
+				fail("connection #1 did not stop serving")
+			}
+			time.Sleep(time.Duration(o.OffsetUS) * time.Microsecond)
+			ep2, err = dial()
+			if err != nil {
+				fail("dial #2: " + err.Error())
+			} else {
+				select {
+				case c2 = <-arrived:
+				case <-time.After(waitBound):
+					fail("connection #2 did not reach the server")
+				}
+			}
+			// quiescence: #1's ServeBack has returned, #2 is past OnConnect
+			select {
+			case <-c1.ended:
+			case <-time.After(waitBound):
+				fail("ServeBack of #1 did not return")
+			}
+		}
+		if c2 != nil {
+			ctx, cancel := context.WithTimeout(context.Background(), waitBound)
+			msg, err := c2.client.Hello(ctx, "ping")
+			cancel()
+			o.NewAlive = err == nil && msg == "ping"
+			o.After = which(c1, c2)
+			go ep2.Close()
+			select {
+			case <-c2.ended:
+			case <-time.After(waitBound):
+				fail("ServeBack of #2 did not return")
+			}
+			o.Final = which(c1, c2)
+		}
+		go ep1.Close()
+		mu.Lock()
+		o.Notes = append([]Note{}, notes...)
+		mu.Unlock()
+		c.Race = append(c.Race, o)
+	}
+}
+
 func runHistory(c *Case, seed uint64) {
 	c.Events, c.Notes, c.Bg, c.Looks, c.Before = []Ev{}, []Note{}, []BgObs{}, [][]int{}, [][]int{}
-	if c.Stream == "free" {
+	if c.Stream == "race" {
+		runRace(c, theTap)
+	} else if c.Stream == "free" {
 		runFree(c, seed+uint64(c.I))
 	} else {
 		w := &world{c: c}
@@ -656,6 +850,8 @@ func runHistory(c *Case, seed uint64) {
 		c.Leak = left
 	}
 }
+
+var theTap *rpcx.LogTap
 
 func loadScript(path string) []Case {
 	bs, err := os.ReadFile(path)
@@ -675,6 +871,7 @@ func main() {
 	seed := flag.Uint64("seed", 1, "seed")
 	n := flag.Int("n", 60, "number of forced histories")
 	nfree := flag.Int("free", 10, "number of free-running histories")
+	nrace := flag.Int("race", 3, "number of race histories (10 rounds each)")
 	script := flag.String("script", "", "JSON file with a list of cases (stream, steps) to run instead")
 	child := flag.Bool("child", false, "child mode")
 	from := flag.Int("from", 0, "first case (child)")
@@ -683,12 +880,16 @@ func main() {
 	var scripted []Case
 	if *script != "" {
 		scripted = loadScript(*script)
-		*n, *nfree = len(scripted), 0
+		*n, *nfree, *nrace = len(scripted), 0, 0
 	}
-	total := *n + *nfree
+	total := *n + *nfree + *nrace
 	gen := func(i int) Case {
 		if scripted != nil {
-			return Case{I: i, Stream: scripted[i].Stream, Steps: scripted[i].Steps}
+			x := scripted[i]
+			return Case{I: i, Stream: x.Stream, Steps: x.Steps, Rounds: x.Rounds, Seed: x.Seed}
+		}
+		if i >= *n+*nfree {
+			return Case{I: i, Stream: "race", Steps: []Step{}, Rounds: 10, Seed: *seed}
 		}
 		return genHistory(*seed, i, i >= *n)
 	}
@@ -696,15 +897,33 @@ func main() {
 	out := hx.NewOut(os.Stdout)
 	if *child {
 		hx.LimitMemory(*mem)
-		rpcx.InstallLogTap()
+		theTap = rpcx.InstallLogTap()
+		// every hang costs an observation bound: after three hangs of the
+		// same kind in a stream the rest of that stream is not run
+		hangs := map[string]int{}
+		stopped := map[string]bool{}
 		for i := *from; i < total; i++ {
 			c := gen(i)
+			if stopped[c.Stream] {
+				c.Events, c.Notes, c.Bg, c.Looks, c.Before = []Ev{}, []Note{}, []BgObs{}, [][]int{}, [][]int{}
+				c.Skipped = true
+				out.Emit(&c)
+				continue
+			}
 			runHistory(&c, *seed)
+			if c.Hang != "" {
+				kind := c.Stream + ":" + strings.SplitN(c.Hang, ":", 2)[0]
+				hangs[kind]++
+				if hangs[kind] >= 3 {
+					stopped[c.Stream] = true
+				}
+			}
 			out.Emit(&c)
 		}
 		return
 	}
-	args := []string{"-seed", strconv.FormatUint(*seed, 10), "-n", strconv.Itoa(*n), "-free", strconv.Itoa(*nfree)}
+	args := []string{"-seed", strconv.FormatUint(*seed, 10), "-n", strconv.Itoa(*n), "-free", strconv.Itoa(*nfree),
+		"-race", strconv.Itoa(*nrace)}
 	if *script != "" {
 		args = append(args, "-script", *script)
 	}
